@@ -38,6 +38,9 @@ def obsOf (impl : Json) : Obs :=
   let within := intD impl "resumedWithinNs"
   { survived := boolD impl "survived" false, closeCalled := boolD impl "closeCalled" false, closeReturned := boolD impl "closeReturned" false,
     closedAtNs := natD impl "closedAtNs",
+    closePanicked := (match impl.getObjVal? "closePanic" with | .ok (.str p) => p != "" | _ => false),
+    firstCloseBad := (match impl.getObjVal? "firstClose" with | .ok (.obj kvs) => !kvs.isEmpty | _ => false),
+    progress := natD impl "progress",
     errNotRunning := nNR, errNotStarted := nNS, errOther := nOther,
     leakedServiceStart := natD leaked "serviceStart", leakedService := natD leaked "service",
     leakedAux := natD leaked "aux", leakedInflight := natD leaked "inflight",
@@ -59,6 +62,8 @@ def handle (input impl : Json) : R Reply := do
   let m := predict current cs o.closedAtNs o.errNotRunning o.errNotStarted (o.closeCalled || (cs.scenario == "close")) (if died then 1 else o.panicsInjected)
   let agreeLive :=
     o.closeReturned == m.closeReturned && decide (o.errOther = 0) &&
+    o.closePanicked == m.closePanicked && o.firstCloseBad == m.firstCloseBad &&
+    (!progressDue cs o || (decide (o.progress > 0) == decide (m.progress > 0))) &&
     decide (o.errNotRunning = m.errNotRunning) && decide (o.errNotStarted = m.errNotStarted) &&
     decide (o.leakedServiceStart = m.leakedServiceStart) && decide (o.leakedService = m.leakedService) &&
     o.bubbleEnded == m.bubbleEnded &&
@@ -71,6 +76,7 @@ def handle (input impl : Json) : R Reply := do
   let closeAt := natD input "closeAt"
   let tags :=
     ["scenario:" ++ cs.scenario] ++
+    (if natD input "reuse" > 0 then [s!"factory-reuse:{natD input "reuse"}"] else []) ++
     (match input.getObjVal? "family" with | .ok (.str "v2") => ["family:v2"] | _ => []) ++
     (match input.getObjVal? "holdSite" with | .ok (.str h) => if h != "" then ["hold-site:" ++ h] else [] | _ => []) ++
     (if cs.panicSite != "" then ["panic-site:" ++ cs.panicSite] else []) ++
@@ -80,7 +86,7 @@ def handle (input impl : Json) : R Reply := do
     (if cs.scenario == "panic-close" && decide (closeAt < cs.coolDownNs) then ["close-soon-after-panic"] else []) ++
     (if natD input "work" > 0 then ["work-in-flight"] else []) ++
     (if cs.scenario == "close" then ["close-at:" ++ closeAtBucket closeAt] else [])
-  let key := s!"{(asStr (fieldD input "family" (.str ""))).toOption.getD ""}|{(asStr (fieldD input "holdSite" (.str ""))).toOption.getD ""}|{natD input "holdNs"}|{natD input "holdAtCall"}|{cs.scenario}|{cs.panicSite}|{closeAtBucket closeAt}|y{natD input "yields"}|p{natD input "preYields"}|w{natD input "work"}|l{cs.latencyNs}|a{natD input "panicAtCall"}c{natD input "panicCount"}|{closeAt}|nr{o.errNotRunning}ns{o.errNotStarted}"
+  let key := s!"r{natD input "reuse"}/{natD input "reuseRunNs"}/{natD input "reuseGapNs"}/{(asStr (fieldD input "reuseCfg" (.str ""))).toOption.getD ""}|{(asStr (fieldD input "family" (.str ""))).toOption.getD ""}|{(asStr (fieldD input "holdSite" (.str ""))).toOption.getD ""}|{natD input "holdNs"}|{natD input "holdAtCall"}|{cs.scenario}|{cs.panicSite}|{closeAtBucket closeAt}|y{natD input "yields"}|p{natD input "preYields"}|w{natD input "work"}|l{cs.latencyNs}|a{natD input "panicAtCall"}c{natD input "panicCount"}|{closeAt}|nr{o.errNotRunning}ns{o.errNotStarted}"
   pure { agree := agree, specModel := sm, specImpl := si,
          diff := if agree then "" else s!"model: survived={m.survived} closeReturned={m.closeReturned} notRunning={m.errNotRunning} notStarted={m.errNotStarted} serviceStart={m.leakedServiceStart} service={m.leakedService} bubbleEnded={m.bubbleEnded} resumed={m.resumed}; impl: survived={o.survived} closeReturned={o.closeReturned} notRunning={o.errNotRunning} notStarted={o.errNotStarted} serviceStart={o.leakedServiceStart} service={o.leakedService} bubbleEnded={o.bubbleEnded} resumed={o.resumed} errOther={o.errOther}",
          fail := fail, nontrivial := true, tags := tags, key := key }
